@@ -19,8 +19,10 @@ import sys
 import time
 
 VERIF = os.path.dirname(os.path.dirname(os.path.abspath(__file__)))
-EVIDENCE_DIR = os.path.join(VERIF, 'evidence')
-REPLAY_DIR = os.path.join(VERIF, 'replays')
+EVIDENCE_DIR = os.environ.get('VERIF_EVIDENCE_DIR') or \
+    os.path.join(VERIF, 'evidence')
+REPLAY_DIR = os.environ.get('VERIF_REPLAY_DIR') or \
+    os.path.join(VERIF, 'replays')
 KNOWN_FILE = os.path.join(VERIF, 'KNOWN_FINDINGS.txt')
 PY = sys.executable
 
@@ -86,6 +88,107 @@ def is_known(known, prop, cls):
         if k['property'] == prop and k['class'] == cls:
             return k
     return None
+
+
+# ------------------------------------------------------- process isolation
+#
+# Every run executes in a freshly forked child of a process that has only
+# ever *imported* the library.  So a run's outcome is a function of its trace
+# and the code alone - not of which runs (or which workload generation) the
+# same worker happened to execute before - and a replay in a fresh
+# interpreter sees the same library state.  Without this, library-level
+# hidden state (a cache, a shared default) makes violations depend on the
+# chunking of runs over workers and replays fail to reproduce.
+
+class ChildFailed(Exception):
+    pass
+
+
+class PlainViolation:
+    """Picklable image of a world's Violation."""
+
+    def __init__(self, v):
+        self.prop = v.prop
+        self.oracle = v.oracle
+        self.cls = v.cls
+        self.detail = v.detail
+        self.buf = getattr(v, 'buf', None)
+        self._json = v.to_json()
+
+    def to_json(self):
+        return self._json
+
+
+def in_child(fn, *args):
+    """Run fn(*args) in a forked child; return its (pickled) result."""
+    r, w = os.pipe()
+    sys.stdout.flush()
+    sys.stderr.flush()
+    pid = os.fork()
+    if pid == 0:
+        code = 1
+        try:
+            os.close(r)
+            try:
+                payload = ('ok', fn(*args))
+            except Exception:
+                import traceback
+                payload = ('err', traceback.format_exc()[-3000:])
+            data = pickle.dumps(payload, protocol=pickle.HIGHEST_PROTOCOL)
+            with os.fdopen(w, 'wb') as f:
+                f.write(data)
+            code = 0
+        finally:
+            os._exit(code)
+    os.close(w)
+    with os.fdopen(r, 'rb') as f:
+        data = f.read()
+    _, status = os.waitpid(pid, 0)
+    if not data:
+        raise ChildFailed('child exited with status %d and no result' %
+                          status)
+    kind, val = pickle.loads(data)
+    if kind == 'err':
+        raise HarnessError('in child: ' + val)
+    return val
+
+
+def _exec_job(spec_mod, check, trace, keep_log, want_sample):
+    import importlib
+    mod = importlib.import_module(spec_mod)
+    res = mod.execute(check, trace, keep_log)
+    v = res.get('violation')
+    if v is not None:
+        res['violation'] = PlainViolation(v)
+    if want_sample:
+        res['sample'] = mod.sample_view(trace, res)
+    if not keep_log:
+        res['log'] = None
+    return res
+
+
+def isolated_execute(spec_mod, check, trace, keep_log=False,
+                     want_sample=False):
+    import importlib
+    mod = importlib.import_module(spec_mod)
+    if hasattr(mod, 'pre_execute'):
+        mod.pre_execute(check, trace)   # parent side; never calls the library
+    return in_child(_exec_job, spec_mod, check, trace, keep_log, want_sample)
+
+
+def _gen_job(spec_mod, check, seed, population, tier, lo, hi):
+    import importlib
+    mod = importlib.import_module(spec_mod)
+    out = []
+    for i in range(lo, hi):
+        rng = rng_for(check, seed, population, i)
+        out.append(mod.generate(check, population, rng, tier))
+    return out
+
+
+def isolated_generate(spec_mod, check, seed, population, tier, lo, hi):
+    return in_child(_gen_job, spec_mod, check, seed, population, tier, lo,
+                    hi)
 
 
 # -------------------------------------------------------------- worker side
@@ -173,23 +276,23 @@ def _selftest_fault(population, i):
 def _run_chunk(args):
     (spec_mod, check, seed, population, tier, lo, hi, wal_path,
      want_sample) = args
-    import importlib
-    mod = importlib.import_module(spec_mod)
     agg = Aggregate()
-    for i in range(lo, hi):
+    if wal_path:
+        with open(wal_path, 'w') as f:
+            f.write('%s %d\n' % (population, lo))
+    traces = isolated_generate(spec_mod, check, seed, population, tier, lo,
+                               hi)
+    for i, trace in zip(range(lo, hi), traces):
         if wal_path:
             with open(wal_path, 'w') as f:
                 f.write('%s %d\n' % (population, i))
         try:
             _selftest_fault(population, i)
-            rng = rng_for(check, seed, population, i)
-            trace = mod.generate(check, population, rng, tier)
-            res = mod.execute(check, trace)
-        except Exception:  # harness failure, never a verdict
-            import traceback
+            res = isolated_execute(spec_mod, check, trace, False,
+                                   want_sample and len(agg.samples) < 2)
+        except HarnessError as e:  # harness failure, never a verdict
             agg.harness_errors.append(
-                '%s/%s/%d: %s' % (check, population, i,
-                                  traceback.format_exc()[-1500:]))
+                '%s/%s/%d: %s' % (check, population, i, str(e)[-1500:]))
             continue
         agg.runs += 1
         if res.get('nontrivial'):
@@ -216,8 +319,9 @@ def _run_chunk(args):
             if all(json.dumps(x[2]) != key for x in agg.violations):
                 agg.violations.append((population, i, v.cls, v.to_json(),
                                        trace))
-        if want_sample and len(agg.samples) < 2 and res.get('nontrivial'):
-            agg.samples.append(mod.sample_view(trace, res))
+        if res.get('sample') is not None and len(agg.samples) < 2 and \
+                res.get('nontrivial'):
+            agg.samples.append(res['sample'])
     return agg
 
 
@@ -247,6 +351,7 @@ def _spawn(job, spec_mod, check, seed, tier, wal_dir, serial):
     if pid == 0:
         code = 1
         try:
+            os.setpgrp()   # so that a stalled run's child dies with us
             _worker_init(3 * 1024 ** 3)
             agg = _run_chunk((spec_mod, check, seed, population, tier, lo,
                               hi, c.wal, want_sample))
@@ -265,6 +370,14 @@ def _spawn(job, spec_mod, check, seed, tier, wal_dir, serial):
     return c
 
 
+def _kill_group(pid):
+    for f in (os.killpg, os.kill):
+        try:
+            f(pid, signal.SIGKILL)
+        except OSError:
+            pass
+
+
 def _wal_read(path):
     try:
         with open(path) as f:
@@ -278,7 +391,8 @@ def run_batches(spec_mod, check, tier, plan, workers=None, wall_cap=None,
                 chunk=None, wal_dir=None):
     """plan: [(population, n_runs)].  Returns (Aggregate, info dict)."""
     seed = base_seed()
-    workers = workers or min(16, os.cpu_count() or 1)
+    workers = workers or int(os.environ.get('VERIF_WORKERS') or
+                             min(16, os.cpu_count() or 1))
     t0 = time.time()
     agg = Aggregate()
     info = {'planned': sum(n for _, n in plan), 'workers': workers,
@@ -379,17 +493,11 @@ def run_batches(spec_mod, check, tier, plan, workers=None, wall_cap=None,
                 last = w[2] if w else c.started
                 if now - last > limit_for(c.job[0]):
                     c.killed = True
-                    try:
-                        os.kill(pid, signal.SIGKILL)
-                    except OSError:
-                        pass
+                    _kill_group(pid)
             if wall_cap is not None and now - t0 > wall_cap:
                 info['timed_out'] = True
                 for pid in live:
-                    try:
-                        os.kill(pid, signal.SIGKILL)
-                    except OSError:
-                        pass
+                    _kill_group(pid)
                 for pid in list(live):
                     try:
                         os.waitpid(pid, 0)
@@ -402,8 +510,8 @@ def run_batches(spec_mod, check, tier, plan, workers=None, wall_cap=None,
                 time.sleep(0.01)
     finally:
         for pid in list(live):
+            _kill_group(pid)
             try:
-                os.kill(pid, signal.SIGKILL)
                 os.waitpid(pid, 0)
             except OSError:
                 pass
@@ -427,6 +535,8 @@ def write_replay(check, prop, population, i, trace, violation_json, digest,
         'violation': violation_json, 'digest': digest,
         'minimised': minimised, 'note': note, 'trace': trace,
     }
+    if os.environ.get('VERIF_SUBBATCH'):
+        body['hashseed'] = os.environ['VERIF_SUBBATCH']
     key = hashlib.sha1(json.dumps([prop, violation_json.get('class'),
                                    trace], sort_keys=True).encode()
                        ).hexdigest()[:12]
